@@ -401,6 +401,8 @@ func run3(c *fw.Ctx) {
 		}
 	}
 	runtimeError = saved
+	runFrameLimit(c)
+	runCaptured(c)
 	if c.Thorough() {
 		// flat space without context, one node deeper
 		c.Family("flat", "core<=5 nodes, no context, no prefix")
